@@ -23,6 +23,8 @@ type Case struct {
 	FEN   string   `json:"fen"`
 	Moves []string `json:"moves,omitempty"`
 	UCI   bool     `json:"uci,omitempty"`
+	// Before (uci): conforming position / ucinewgame lines sent on the same driver first (gen.EarlierPositions)
+	Before []string `json:"before,omitempty"`
 }
 
 func ev(b *board.Board) chess.Score { return eval.Eval(b, &eval.Coefficients) }
@@ -162,7 +164,7 @@ func checkCase(c Case, rec *evid.Rec) error {
 		if len(c.Moves) > 0 { // the same position reached through a move list: the driver's board carries a hash history
 			cmd = "position fen " + c.FEN + " moves " + strings.Join(c.Moves, " ")
 		}
-		out, _ := eng.UCI([]string{cmd, "eval"})
+		out, _ := eng.UCI(append(append([]string{}, c.Before...), cmd, "eval"))
 		// the command prints the score in UCI notation: "cp <n>"
 		got, ok := eng.LastScore(out)
 		if !ok {
@@ -256,6 +258,9 @@ func TestC17(t *testing.T) {
 			c := Case{FEN: end.FEN(), UCI: true}
 			if gen.Chance(t, 1, 2, "history") { // a game with recurrences (up to the third occurrence and beyond)
 				c = Case{FEN: root.FEN(), UCI: true, Moves: gen.HistoryOpt(t, root, 24, true)}
+			}
+			if c.Before = gen.EarlierPositions(t, c.FEN, false, c.Moves); len(c.Before) > 0 {
+				rec.Class("uci_earlier_position_commands")
 			}
 			if err := checkCase(c, rec); err != nil {
 				rec.Fail("uci", err.Error(), c)
